@@ -19,6 +19,8 @@
 # IN THE SOFTWARE.
 from typing import Optional, Any
 
+from ..configuration_error import ConfigurationError
+
 
 def prefer_important(val, default):
     if val is None:
@@ -74,7 +76,10 @@ def none_or_dict(value) -> Optional[dict[str, Any]]:
 
 def value_with_optional_details(value, default_details=None):
     if isinstance(value, dict):
-        assert len(value) == 1
+        if len(value) != 1:
+            raise ConfigurationError(
+                "Expected a name with optional details, but got %d entries: %s"
+                % (len(value), ", ".join(str(k) for k in value)))
         (value, details) = list(value.items())[0]
     else:
         details = default_details
